@@ -54,9 +54,38 @@ def str_z(s: Str):
     return intern(s.py)
 
 
-def string_axioms():
-    """Facts about the interned constants, computed by CPython on the constants themselves, plus the
-    string axioms listed in DESIGN.md 3.2.  Added to every solver query that mentions strings."""
+def _collect_str_terms(fs):
+    """ground sub-terms of sort PyStr (and str_of_int applications) occurring in the formulas"""
+    seen, terms, stack = set(), [], list(fs)
+    while stack:
+        e = stack.pop()
+        i = e.get_id()
+        if i in seen:
+            continue
+        seen.add(i)
+        if z3.is_quantifier(e):
+            stack.append(e.body())
+            continue
+        if z3.is_app(e):
+            try:
+                if e.sort() == StrSort:
+                    terms.append(e)
+            except z3.Z3Exception:
+                pass
+            stack.extend(e.children())
+    out = []
+    for t in terms:
+        if "(:var" in t.sexpr():
+            continue        # mentions a bound variable
+        out.append(t)
+    return out
+
+
+def string_axioms(fs=()):
+    """Facts about the interned constants, computed by CPython on the constants themselves, plus ground instances
+    (for every string term occurring in the query) of the string axioms listed in DESIGN.md 3.2:
+      isnumeric(t) -> len(t) > 0 and (int_ok(t) -> intval(t) >= 0);  len(t) >= 0;
+      str(n): isnumeric iff n >= 0, int_ok, intval = n, contains no letters."""
     ax = []
     consts = list(INTERNED.items())
     if len(consts) > 1:
@@ -73,23 +102,24 @@ def string_axioms():
             ax.append(pred(c) == (needle in py))
         for pre, pred in STARTS.items():
             ax.append(pred(c) == py.startswith(pre))
-    s = z3.Const("s_ax", StrSort)
-    n = z3.Int("n_ax")
-    # isnumeric(t) => t non-empty, int(t) >= 0 ; str(n) for n >= 0 is numeric and int(str(n)) = n
-    ax.append(z3.ForAll([s], z3.Implies(F_ISNUMERIC(s), z3.And(F_LEN(s) > 0, z3.Implies(F_INTOK(s), F_INTVAL(s) >= 0))),
-                        patterns=[F_ISNUMERIC(s)]))
-    ax.append(z3.ForAll([s], F_LEN(s) >= 0, patterns=[F_LEN(s)]))
-    ax.append(z3.ForAll([n], z3.And(F_ISNUMERIC(F_OFINT(n)) == (n >= 0), F_INTOK(F_OFINT(n)), F_INTVAL(F_OFINT(n)) == n),
-                        patterns=[F_OFINT(n)]))
-    for needle, pred in HAS_SUB.items():
-        if not any(ch.isdigit() or ch == "-" for ch in needle):
-            ax.append(z3.ForAll([n], z3.Not(pred(F_OFINT(n))), patterns=[F_OFINT(n)]))
+    for t in _collect_str_terms(fs):
+        ax.append(z3.Implies(F_ISNUMERIC(t), z3.And(F_LEN(t) > 0, z3.Implies(F_INTOK(t), F_INTVAL(t) >= 0))))
+        ax.append(F_LEN(t) >= 0)
+        if z3.is_app(t) and t.decl().eq(F_OFINT):
+            n = t.arg(0)
+            ax.append(z3.And(F_ISNUMERIC(t) == (n >= 0), F_INTOK(t), F_INTVAL(t) == n, F_LEN(t) >= 1))
+            for needle, pred in HAS_SUB.items():
+                if not any(ch.isdigit() or ch == "-" for ch in needle):
+                    ax.append(z3.Not(pred(t)))
     return ax
 
 
 def str_eq(a: Str, b: Str):
     if a.py is not None and b.py is not None:
         return z3.BoolVal(a.py == b.py)
+    for x, y in ((a, b), (b, a)):
+        if x.py is not None and "one_of" in y.meta and x.py not in y.meta["one_of"]:
+            return z3.BoolVal(False)
     return str_z(a) == str_z(b)
 
 
@@ -229,6 +259,13 @@ def _str_getitem(interp, self: Str, args, kwargs):
         def c(x):
             return None if x is None else conc(x.z)
         return Str(py=self.py[c(idx[1]):c(idx[2]):c(idx[3])])
+    if "of_int" in self.meta and isinstance(idx, Num):
+        # a character of the decimal text of an integer: a digit or the sign; IndexError if out of range
+        ctx = interp.ctx
+        L = F_LEN(str_z(self))
+        if not ctx.branch(z3.And(idx.z >= -L, idx.z < L), "str-index-in-range"):
+            raise PyRaise("IndexError", "string index out of range")
+        return Str(z=z3.Const(ctx.fresh("digit"), StrSort), meta={"one_of": tuple("0123456789-")})
     raise Unsupported("indexing a symbolic string")
 
 
@@ -1247,3 +1284,25 @@ def _md5_2(interp, args, kwargs):
     if isinstance(v, Str):
         return Digest(v, 0, "md5")
     return _old_md5(interp, args, kwargs)
+
+
+# f-string values (meta 'parts'): substring test when every hole is the text of an integer
+_old_contains2 = contains
+
+
+def contains(interp, container, x):      # noqa: F811
+    if isinstance(container, Str) and container.py is None and "parts" in container.meta and isinstance(x, Str) and x.py is not None:
+        needle = x.py
+        parts = container.meta["parts"]
+        if all(p.py is not None or "of_int" in p.meta for p in parts) and not any(ch.isdigit() or ch == "-" for ch in needle):
+            runs, cur = [], ""
+            for p in parts:
+                if p.py is not None:
+                    cur += p.py
+                else:
+                    runs.append(cur)
+                    cur = ""
+            runs.append(cur)
+            return lift(any(needle in r for r in runs))
+        raise Unsupported("substring test on an f-string with non-integer holes")
+    return _old_contains2(interp, container, x)
